@@ -29,7 +29,8 @@ def rand_str(rng, max_units):
     target = rng.choice([0, 1, max_units // 2, max_units - 1, max_units]) if kind else rng.randrange(0, max_units + 1)
     out, units = [], 0
     while units < target:
-        c = rng.choice(['a', 'Z', ' ', 'é', 'あ', '中', '\U0001F600', '\U00010348', '\0', '￿'])
+        # (U+FEFF and U+FFFE are characters like any other in a field that has no byte-order mark)
+        c = rng.choice(['a', 'Z', ' ', 'é', 'あ', '中', '\U0001F600', '\U00010348', '\0', '￿', '\ufeff', '\ufffe'])
         u = 2 if ord(c) > 0xFFFF else 1
         if units + u > target:
             c, u = 'x', 1
@@ -248,9 +249,16 @@ def t_config_blocks(ctx, rng):
         p = ConfigSaveBlockParser(ConfigSaveReader())
         p.username = name
         p.user_time_offset = offset
+        model_no = rng.randrange(6)
+        if rng.random() < 0.5:
+            p.system_model = model_no          # a block the accessor has to create on a fresh save
+        else:
+            model_no = None
         got1 = (p.username, p.user_time_offset)
         p2 = ConfigSaveBlockParser.load(io.BytesIO(p.save.to_bytes()))
         got2 = (p2.username, p2.user_time_offset)
+        if model_no is not None and (int(p.system_model), int(p2.system_model)) != (model_no, model_no):
+            check(ctx, 'config-blocks-roundtrip', dict(case, model=model_no), False, model_no, (int(p.system_model), int(p2.system_model)), 'system model read back differs')
     except Exception as ex:
         check(ctx, 'config-blocks-raises', case, False, 'values', pyenv.errname(ex), 'typed config accessors raised')
         return
